@@ -47,6 +47,7 @@ CONSTANTS Mode,      \* "delim" | "arff" | "csv" | "svm"
           CutMode,   \* delim: "all" (every set of cut positions) | "uniform" (every fixed chunk size)
           K,         \* tables: at most K fields depart from their default
           Shapes,    \* tables: which shapes to enumerate
+          SparseSet, \* arff: {FALSE} dense rows, {TRUE} sparse rows, or both
           Rich       \* tables: TRUE = the large option sets
 
 VARIABLES inp,   \* the case (constant along a behaviour)
@@ -275,9 +276,10 @@ ArffUniverse(shape, sparse) ==
      \cup UNION {{[k |-> "quote", f |-> "nq" \o ToString(c), v |-> v] : v \in {"sq", "dq"}} : c \in {1, nc}}
      \cup UNION {{[k |-> "cell", f |-> "name" \o ToString(c), v |-> S(v)] : v \in NameSpecials} : c \in {1, nc}}
      \cup UNION {{[k |-> "cell", f |-> "lvl" \o ToString(c), v |-> S(v)] : v \in LvlSpecials} : c \in {c \in 1..nc : shape[c] = "nom"}}
-DevSets(U) == {{}} \cup {{d} : d \in U}
-              \cup (IF K >= 2 THEN {{d, e} : d \in U, e \in U} ELSE {})
-              \cup (IF K >= 3 THEN {{d, e, g} : d \in U, e \in U, g \in U} ELSE {})
+(* at most K departures: chosen one after the other in Init (the same set reached in another order is the
+   same initial state), never materialised as one big set *)
+Nil == [k |-> "nil", f |-> "", v |-> ""]
+Pick(U, n) == IF K >= n THEN U \cup {Nil} ELSE {Nil}
 NameFields == {"name1", "name2", "name3"}
 OnePerField(ds) == \A d \in ds, e \in ds : d.f = e.f => d = e
 Has(ds, f) == \E d \in ds : d.f = f
@@ -395,8 +397,10 @@ ArffCommon(sparse, ds) ==
                      [] d.k = "quote" -> d.v = "sq"      \* OpenML uploads quote every value with '
                      [] OTHER -> TRUE                    \* contents: every table must be readable
 DistinctNames(ds) == \A d \in ds, e \in ds : (d.f \in NameFields /\ e.f \in NameFields /\ d.f # e.f) => d.v # e.v
-ArffInit == \E sh \in Shapes : \E sp \in {FALSE, TRUE} :
-              \E ds \in DevSets(ArffUniverse(ArffShape(sh), sp)) :
+ArffInit == \E sh \in Shapes : \E sp \in SparseSet :
+              LET U == ArffUniverse(ArffShape(sh), sp) IN
+              \E d1 \in Pick(U, 1) : \E d2 \in Pick(U, 2) : \E d3 \in Pick(U, 3) :
+                LET ds == {d1, d2, d3} \ {Nil} IN
                 /\ OnePerField(ds) /\ DistinctNames(ds)
                 /\ inp = [shape |-> sh, sparse |-> sp, devs |-> ds]
                 /\ dl = <<>>
@@ -468,7 +472,9 @@ CsvFields(cs, i, d) ==      \* fields of cs from position i (i = Len+1: one last
 CsvParse(lines, hdr, d) ==
   LET rows == [i \in DOMAIN lines |-> CsvFields(lines[i], 1, d)] IN
   IF hdr THEN [names |-> rows[1], rows |-> Tail(rows)] ELSE [names |-> <<>>, rows |-> rows]
-CsvInit == \E sh \in Shapes : \E ds \in DevSets(CsvUniverse(CsvShape(sh))) :
+CsvInit == \E sh \in Shapes : LET U == CsvUniverse(CsvShape(sh)) IN
+           \E d1 \in Pick(U, 1) : \E d2 \in Pick(U, 2) : \E d3 \in Pick(U, 3) :
+             LET ds == {d1, d2, d3} \ {Nil} IN
              /\ OnePerField(ds) /\ DistinctNames(ds)
              /\ (CsvOpt(ds, "hdr") = "no" => ~\E d \in ds : d.f \in {"name1", "name2", "name3"})
              /\ inp = [shape |-> sh, devs |-> ds]
@@ -536,7 +542,8 @@ SvmParse(lines, manik) ==
                                  feats |-> [k \in 1..(Len(ws[i]) - 1) |-> LET p == SplitOn(ws[i][k + 1], ":") IN <<ParseIdx(p[1]), ParseNum(p[2])>>]]>>)
                         \o rowsOf(i + 1)
   IN rowsOf(1)
-SvmInit == \E ds \in DevSets(SvmUniverse) : /\ OnePerField(ds) /\ inp = [shape |-> "svm", devs |-> ds] /\ dl = <<>>
+SvmInit == \E d1 \in Pick(SvmUniverse, 1) : \E d2 \in Pick(SvmUniverse, 2) : \E d3 \in Pick(SvmUniverse, 3) :
+           LET ds == {d1, d2, d3} \ {Nil} IN /\ OnePerField(ds) /\ inp = [shape |-> "svm", devs |-> ds] /\ dl = <<>>
 SvmSound == (Mode = "svm" /\ done) => SvmParse(SvmWrite(inp.devs), SvmOpt(inp.devs, "fmt") = "manik") = SvmTable(inp.devs)
 SvmDevOut(d) == [f |-> d.f, v |-> IF d.k = "lex" THEN d.v
                                   ELSE IF d.v.t = "lab" THEN Str(Join(d.v.v, <<",">>))
